@@ -26,10 +26,11 @@ Enabled(S, e) ==
     [] e.a = "ShareVec" -> DeadObjs(S) # {} /\ e.y \in S.usertup
     [] e.a = "DropTuple" -> e.y \in S.usertup
     [] e.a \in {"Drop", "ReadFpV", "Rename"} -> e.x \in LiveVec(S)
-    [] e.a = "ConcatEmpty" -> e.x \in LiveVec(S) /\ DeadObjs(S) # {}
+    [] e.a = "ConcatEmpty" -> e.x \in LiveVec(S) /\ DeadObjs(S) # {} /\ FreeSids(S) # {}
     [] e.a = "WriteRow" -> e.x \in LiveTab(S) /\ e.y \in 1..S.tlen[e.x] /\ Len(e.vs) = Len(S.cols[e.x])
                            /\ Cardinality(FreeSids(S)) >= Len(e.vs)
     [] e.a = "Write" -> e.x \in LiveVec(S) /\ FreeSids(S) # {} /\ e.z \in 1..Len(Contents(S, e.x))
+    [] e.a = "WriteNone" -> e.x \in LiveVec(S) /\ FreeSids(S) # {}
     [] e.a = "NewTable" -> /\ DeadTabs(S) # {} /\ ToSetOf(e.vs) \subseteq LiveVec(S) /\ Len(e.vs) >= 1
                            /\ Cardinality(FreeSids(S)) >= Len(e.vs) + 1 /\ Cardinality(DeadObjs(S)) >= Len(e.vs)
     [] e.a = "SetAttr" -> /\ e.x \in LiveTab(S) /\ e.z \in LiveVec(S) /\ e.y \in 1..Len(S.cols[e.x])
@@ -44,9 +45,10 @@ Apply(S, e) ==
     [] e.a = "DropTuple" -> DropTuple(S, e.y)
     [] e.a = "Copy"      -> CopyVec(S, e.x, OneSid(S))
     [] e.a = "Drop"      -> Drop(S, e.x)
-    [] e.a = "ConcatEmpty" -> ConcatEmpty(S, e.x)
+    [] e.a = "ConcatEmpty" -> ConcatEmpty(S, e.x, OneSid(S))
     [] e.a = "WriteRow"  -> WriteRow(S, e.x, e.y, e.vs, KSids(S, Len(e.vs)))
     [] e.a = "Write"     -> WriteVec(S, e.x, e.z, e.w, OneSid(S))
+    [] e.a = "WriteNone" -> WriteNone(S, e.x, OneSid(S))
     [] e.a = "ReadFpV"   -> ReadFpV(S, e.x)
     [] e.a = "NewTable"  -> NewTable(S, e.vs, KSids(S, Len(e.vs) + 1), KObjs(S, Len(e.vs)))
     [] e.a = "SetAttr"   -> LET ss == KSids(S, 2) IN SetAttr(S, e.x, e.y, e.z, ss[1], ss[2], KObjs(S, 1)[1])
@@ -61,12 +63,12 @@ Apply(S, e) ==
 Clause(r, e) ==
   LET P == r.st  o == e.post IN
   IF r.res # e.res THEN
-       (IF e.a \in {"Write", "WriteRow"} /\ r.res = "Ok" /\ e.res = "Refused" THEN "spurious_refusal"
-        ELSE IF e.a \in {"Write", "WriteRow"} /\ r.res = "Refused" /\ e.res = "Ok" THEN "note_cow_instead_of_refusal"
+       (IF e.a \in {"Write", "WriteRow", "WriteNone"} /\ r.res = "Ok" /\ e.res = "Refused" THEN "spurious_refusal"
+        ELSE IF e.a \in {"Write", "WriteRow", "WriteNone"} /\ r.res = "Refused" /\ e.res = "Ok" THEN "note_cow_instead_of_refusal"
         ELSE IF e.a = "NewTable" \/ (e.a = "SetAttr" /\ r.res = "Err") THEN "ragged_outcome"
         ELSE IF e.a = "SetAttr" THEN "setattr_error"
         ELSE IF e.a = "Lookup" THEN "lookup"
-        ELSE IF e.a = "Write" THEN "write_error" ELSE "outcome")
+        ELSE IF e.a \in {"Write", "WriteNone"} THEN "write_error" ELSE "outcome")
   ELSE IF ToSetOf(o.live) # P.live THEN "liveness"
   ELSE IF \E x \in LiveVec(P) : o.store[x] \notin Sid THEN "contents"      \* storage the recorder could not account for
   ELSE IF \E x \in LiveVec(P) : o.heap[o.store[x]] # Contents(P, x) THEN "contents"
